@@ -782,6 +782,8 @@ func main() {
 	maxops := flag.Int("maxops", 80, "max ops per history")
 	nrace := flag.Int("nrace", 60000, "race rounds to run")
 	nracekeep := flag.Int("nracekeep", 4000, "race rounds (with real overlap) to keep")
+	nwrace := flag.Int("nwrace", -1, "wide race rounds to run (-1: nrace/4)")
+	nwracekeep := flag.Int("nwracekeep", -1, "wide race rounds to keep (-1: nracekeep/3)")
 	flag.Parse()
 	rng := rand.New(rand.NewSource(*seed))
 
@@ -822,7 +824,13 @@ func main() {
 		runConc(cw, rng, i%2 == 0, 3, 4+i%3)
 	}
 	ran, kept := runRaces(cw, rng, *nrace, *nracekeep)
-	wran, wkept := runWideRaces(cw, rng, *nrace/4, *nracekeep/3)
+	if *nwrace < 0 {
+		*nwrace = *nrace / 4
+	}
+	if *nwracekeep < 0 {
+		*nwracekeep = *nracekeep / 3
+	}
+	wran, wkept := runWideRaces(cw, rng, *nwrace, *nwracekeep)
 	cw.Close()
 	fmt.Printf("wide_race_rounds=%d wide_race_rounds_with_overlap=%d\n", wran, wkept)
 	fmt.Printf("seq_events=%d conc_events=%d race_rounds=%d race_rounds_with_overlap=%d\n", w.N(), cw.N(), ran, kept)
